@@ -397,12 +397,40 @@ def model_sees(errs):
     return False
 
 
-def check_recipe(ctx, recipe, pending, tag):
+def create_model_expr(step):
+    """create_model on the stream a single create step hands to create(): frame/dict inputs are
+    sorted by create_cooler, an ordered chunk list is concatenated"""
+    if step["op"] != "create" or step["input"] not in ("frame", "dict", "ordered"):
+        return None
+    recs = [r for ch in step["chunks"] for r in ch]
+    if step["input"] in ("frame", "dict"):
+        recs = sorted(recs, key=lambda r: (r[0], r[1]))
+    if len(recs) > 400:
+        return None
+    chroms = [ci for ci, ws in enumerate(step["widths"]) for _ in ws]
+    px = C.lst([C.tup(C.tup(C.z(a), C.z(b_)), C.z(v)) for a, b_, v in recs])
+    return f"create_model {C.z(len(step['widths']))} {C.zl(chroms)} {px} {C.b(step['symm'])}"
+
+
+def raw_record(raw):
+    A = raw["attrs"]
+    px = raw["pixels"]
+    return {"nbins": A["nbins"], "nchroms": A["nchroms"], "bin_chrom": [int(x) for x in raw["bins"]["chrom"]],
+            "bin1": [int(x) for x in px["bin1_id"]], "bin2": [int(x) for x in px["bin2_id"]],
+            "counts": [int(x) for x in px["count"]],
+            "bin1_offset": [int(x) for x in raw["indexes"]["bin1_offset"]],
+            "chrom_offset": [int(x) for x in raw["indexes"]["chrom_offset"]],
+            "nnz": A["nnz"], "sum": int(A.get("sum", -1)), "symmetric_upper": A["storage-mode"] == "symmetric-upper"}
+
+
+def check_recipe(ctx, recipe, pending, tag, created=None):
     d = str(ctx.tmp / f"r{tag}")
     os.makedirs(d, exist_ok=True)
     case = {"fn": "recipe", "steps": recipe}
-    outcome, files = G.run_recipe(d, recipe)
+    outcome, files = G.run_recipe(d, recipe, limit=60)
     kinds = "+".join(st["op"] + (":" + st["input"] if st["op"] == "create" else "") for st in recipe)
+    if outcome == "timeout":
+        ctx.extra["recipe_timeouts"] = ctx.extra.get("recipe_timeouts", 0) + 1
     if outcome != "ok":
         ctx.case(case, nontrivial=False, kind="e2e-error:" + kinds)
         # the model of the producers predicts success on every recipe we generate
@@ -434,6 +462,10 @@ def check_recipe(ctx, recipe, pending, tag):
                 holds = False
                 sig = G.signature_for(recipe, fname, grp, errs)
                 ctx.fail(ccase, {"errors": [f"{c}: {m}" for c, m in errs][:6]}, sig)
+            if created is not None and len(recipe) == 1 and outcome == "ok":
+                ex = create_model_expr(recipe[0])
+                if ex is not None:
+                    created.append((ccase, ex, raw_record(raw)))
             if pending is not None:
                 ex = collection_expr(raw)
                 if ex is not None:
@@ -457,9 +489,17 @@ def check_recipe(ctx, recipe, pending, tag):
 
 def e2e(ctx):
     recipes = gen_recipes(ctx)
-    pending = []
+    pending, created = [], []
     for k, r in enumerate(recipes):
-        check_recipe(ctx, r, pending, k)
+        check_recipe(ctx, r, pending, k, created)
+        if ctx.extra.get("recipe_timeouts", 0) >= 3:
+            # a producer that hangs (mutated code) would otherwise eat the whole time budget
+            ctx.extra["recipes_skipped_after_timeouts"] = len(recipes) - k - 1
+            break
+    cmodel = C.coq_eval(IMPORTS, [ex for _, ex, _ in created], tmpdir=ctx.tmp / "e2e_create", shard=100, jobs=4)
+    for (ccase, _, rec), mo in zip(created, cmodel):
+        ctx.compare("stored collection vs create_model(input stream)", ccase, rec, None if mo is None else mo[1])
+    ctx.extra["create_model_comparisons"] = len(created)
     ctx.extra["recipes"] = len(recipes)
     ctx.extra["collections_fed_to_model"] = len(pending)
     model = C.coq_eval(IMPORTS, [ex for _, ex, _ in pending], tmpdir=ctx.tmp / "e2e", shard=200, jobs=4)
@@ -523,16 +563,41 @@ def big_file(ctx):
     ctx.compare("rlencode(big, 1e6) vs one-shot (implementation)", case, digest(4096, blk), digest(4096, one))
     if not oracle_rle(col.tolist(), blk):
         ctx.fail({**case, "chunksize": 1000000}, {"got": "run-length encoding of the stored bin1_id column is wrong"}, None)
-    # the model on the same column, given as runs (value, length) and expanded inside Coq
-    vals, lens = one[2], one[1]
-    runs = C.lst([C.tup(C.z(v), C.z(l)) for v, l in zip(vals, lens)])
-    expr = (f"let a := concat (map (fun vl => repeat (fst vl) (Z.to_nat (snd vl))) {runs}) in "
-            f"(zlen a, digest 4096 (rlencode a (Some 1000000)), digest 4096 (rlencode a None), index_pixels a {C.z(n)} (zlen a))")
-    (mlen, mdig_blk, mdig_one, mip), = C.coq_eval(IMPORTS, [expr], tmpdir=ctx.tmp / "bigv", timeout=900)
-    ctx.compare("model column length", case, len(col), mlen)
-    ctx.compare("rlencode(big, 1e6) digest", case, digest(4096, blk), mdig_blk)
-    ctx.compare("rlencode(big, None) digest", case, digest(4096, one), mdig_one)
-    ctx.compare("index_pixels(big) vs stored bin1_offset", case, [int(x) for x in raw["indexes"]["bin1_offset"]], model_opt_list(mip))
+    # the model at this size: vm_compute of the list-recursive encoder on 1.1e6 elements is out of reach
+    # (deep non-tail recursion, > 10 min), so (a) the index loop of the model runs on the runs of the
+    # full column as the *definition* of run-length encoding gives them, and (b) the whole model pipeline
+    # runs on a 180 000-row prefix of the stored column with block size 70 000 (two block edges inside runs)
+    s_def, l_def, v_def = [], [], []
+    colv = col.tolist()
+    chg = np.flatnonzero(np.r_[True, col[1:] != col[:-1]])
+    s_def = [int(x) for x in chg]
+    v_def = [int(colv[k]) for k in s_def]
+    runs = C.lst([C.tup(C.z(a_), C.z(v_)) for a_, v_ in zip(s_def, v_def)])
+    (mip,) = C.coq_eval(IMPORTS, [f"index_runs {C.z(n)} {runs} {C.z(len(colv))}"], tmpdir=ctx.tmp / "bigv", timeout=900, jobs=1)
+    ctx.compare("model index loop on the runs of the big column vs stored bin1_offset", case,
+                [int(x) for x in raw["indexes"]["bin1_offset"]], list(mip))
+    m = 180_000
+    pre = col[:m]
+    one_p = impl_rlencode(pre, None)
+    blk_p = impl_rlencode(pre, 70_000)
+    pruns = C.lst([C.tup(C.z(v_), C.z(l_)) for v_, l_ in zip(one_p[2], one_p[1])])
+    expr = (f"let a := concat (map (fun vl => repeat (fst vl) (Z.to_nat (snd vl))) {pruns}) in "
+            f"(zlen a, digest 4096 (rlencode a (Some 70000)), digest 4096 (rlencode a None), index_pixels_c 70000 a {C.z(n)} (zlen a))")
+    import resource
+    soft, hard = resource.getrlimit(resource.RLIMIT_STACK)
+    try:
+        resource.setrlimit(resource.RLIMIT_STACK, (hard, hard))
+    except (ValueError, OSError):
+        pass
+    try:
+        ((mlen, mdig_blk, mdig_one, mipp),) = C.coq_eval(IMPORTS, [expr], tmpdir=ctx.tmp / "bigp", timeout=900, jobs=1)
+    finally:
+        resource.setrlimit(resource.RLIMIT_STACK, (soft, hard))
+    pcase = {**case, "prefix": m, "chunksize": 70000}
+    ctx.compare("model column length (prefix)", pcase, m, mlen)
+    ctx.compare("rlencode(prefix, 70000) digest", pcase, digest(4096, blk_p), mdig_blk)
+    ctx.compare("rlencode(prefix, None) digest", pcase, digest(4096, one_p), mdig_one)
+    ctx.compare("index_pixels(prefix) model vs implementation", pcase, impl_index_pixels(pre, n, m), model_opt_list(mipp))
     os.remove(path)
 
 
